@@ -660,3 +660,57 @@ def explicit_nan_criterion(ctx: Ctx, rule: str, denominator_words=("base", "marg
                      "cells whose base is positive are blanked (e.g. a multiple-response table nobody selected anything in: counts all zero, bases positive, proportion 0 - not NaN)")
     if not bad:
         ctx.held(rule, "this property's measure classes: every explicit NaN", f"{n} members, {n_sites} explicit NaN site(s), each selected by the denominator", "")
+
+
+def set_order_lint(ctx: Ctx, rule: str = "hash-order"):
+    """No result is built from the iteration order of a set (PYTHONHASHSEED-dependent for strings and enum members)."""
+    from .. import lints as L
+    from ..loader import AnalysisError
+
+    if L.set_order_self_check() != (1, 0):
+        raise AnalysisError("hash-order lint: the positive control is no longer recognised")
+    set_members = set()
+    for m in ctx.repo.all_members():
+        if isinstance(m.node, ast.FunctionDef) and m.node.returns is not None and any(w in u(m.node.returns) for w in ("FrozenSet", "Set[", "frozenset")):
+            set_members.add(m.name)
+    n, hits = 0, []
+    for m in ctx.repo.all_members():
+        if not isinstance(m.node, ast.FunctionDef):
+            continue
+        n += 1
+        short = m.cls.module.path.split("cr/cube/")[-1]
+        for _l, text in L.set_order_uses(m.node, frozenset(set_members)):
+            hits.append((f"{short}::{m.cls.name}.{m.name} [{text[:50]}]", text))
+    ctx.count("functions scanned for set-order dependence", n)
+    for where, text in hits:
+        ctx.violated(rule, where, text, "sorted(..) / iteration over an ordered collection filtered by membership",
+                     "the order of a set of strings / enum members changes with the interpreter's hash seed: the same response gives different results in different processes")
+    if not hits:
+        ctx.held(rule, "package: every set turned into a sequence", f"{n} functions, {len(set_members)} set-valued members: no sequence is built from a set's iteration order", "", "positive control recognised")
+
+
+def marginal_leaves(ctx: Ctx, sl, public: str, want: str):
+    """Leaves of the public marginal property with private helper METHODS inlined (a shared `_margin_proportion(orientation)`)
+    and literal conditions folded.  -> (leaf texts, verdict): True when `want` is one of them; False when a path assembles
+    ANOTHER marginal of the measures object (positive evidence of a substitution); None otherwise."""
+    from ..symex import expand, fold_consts, strip_ifexp_paths
+
+    e = expand(ctx.repo, sl, public, stop=lambda m: m.kind in ("lazyproperty", "property") or m.name in ("_assemble_matrix", "_assemble_marginal", "_assemble_vector"))
+
+    class _Enum(ast.NodeTransformer):
+        # MO.ROWS == MO.ROWS -> True, MO.ROWS == MO.COLUMNS -> False (members of one enumeration)
+        def visit_Compare(self, n):
+            self.generic_visit(n)
+            if len(n.ops) == 1 and isinstance(n.ops[0], (ast.Eq, ast.NotEq, ast.Is, ast.IsNot)):
+                a, b = u(n.left), u(n.comparators[0])
+                if a.startswith("MO.") and b.startswith("MO."):
+                    same = a == b
+                    return ast.Constant(value=same if isinstance(n.ops[0], (ast.Eq, ast.Is)) else not same)
+            return n
+
+    e = fold_consts(_Enum().visit(e))
+    leaves = [u(l) for _g, l in strip_ifexp_paths(e)]
+    if want in leaves:
+        return leaves, True
+    other = [l for l in leaves if l.startswith("self._assemble_marginal(self._measures.") and l != want]
+    return leaves, (False if other else None)
